@@ -12,7 +12,7 @@
 From PM Require Import Model.Prelude Model.Domain Model.CTree Model.CTreeChar Model.DomPGKeys
   Model.DomString Model.DomMatrix Spec.TreeSem
   Proofs.TreeProofs Proofs.TreeDomains Proofs.PowersetProofs Proofs.PGTreeProofs
-  Model.Constraint Model.DomPG Proofs.RunSound Spec.TreeDet Proofs.TreeRootExclusive Proofs.PowersetDet Proofs.PGTreeDet.
+  Model.Constraint Model.DomPG Proofs.RunSound Spec.TreeDet Proofs.TreeRootExclusive Proofs.PowersetDet Proofs.PGTreeDet Proofs.CellsProofs Proofs.CharTreeDet.
 
 (** helper constructors *)
 Theorem c10_with_children :
@@ -114,9 +114,12 @@ Theorem c10_sorted_head_is_minimal :
       sort_with_indices cmp l = (c0, i0) :: rest -> nth_error l i = Some c -> cmp c0 c <> Gt.
 Proof. exact @sort_head_minimal. Qed.
 
-(** The deterministic reading.  A tree that sets make_det allows the builder to
-    take only the first satisfied transition of the state it is inserted at; that
-    loses nothing when no two children of the root hold together.  Generic part:
+(** Beyond the property: mutual exclusion at the root, and the first-satisfied-child
+    reading (Spec/TreeDet.v).  C10 as stated follows every satisfied edge, and so
+    does the traversal of a deterministic state (only its fallback transition is
+    conditional); a tree that sets make_det announces that the children of its
+    root exclude each other, which is what keeps a deterministic state from
+    reaching the copied successors of its fallback state twice.  Generic part:
     the children of the root of [with_transitive_mutex] carry pairwise different
     constraints, each the first one or mutex with it.  Port graphs (smallest
     constraint IsConnected or HasNodeWeight): no host and no binding that is
@@ -188,6 +191,30 @@ Theorem c10_pg_ne_tree_det_faithful :
     det_faithful (pgv beta atomv) T cs.
 Proof. exact pg_ne_tree_det_faithful. Qed.
 
+(** strings and matrices: the children of the root test one cell for pairwise
+    different characters, so under every valuation that reads the constraints off
+    characters ([cvalb char_of]: key k denotes the character [char_of k], any host,
+    any anchor) the two readings coincide *)
+Theorem c10_string_tree_det_faithful :
+  forall (char_of : N -> option N) cs T,
+    cs <> [] -> char_tree N.compare cs = Ok T -> det_faithful (cvalb char_of) T cs.
+Proof.
+  intros char_of cs T. apply char_tree_det_faithful.
+  - intros a b. apply N.compare_eq_iff.
+  - intros a. apply N.compare_refl.
+Qed.
+
+Theorem c10_matrix_tree_det_faithful :
+  forall (char_of : mkey -> option N) cs T,
+    cs <> [] -> char_tree mkey_cmp cs = Ok T -> det_faithful (cvalb char_of) T cs.
+Proof.
+  intros char_of cs T. apply char_tree_det_faithful.
+  - intros [a1 a2] [b1 b2]. unfold mkey_cmp. cbn.
+    destruct (Z.compare a1 b1) eqn:E1; try discriminate. intros E2.
+    apply Z.compare_eq_iff in E1, E2. now subst.
+  - intros [a1 a2]. unfold mkey_cmp. cbn. now rewrite !Z.compare_refl.
+Qed.
+
 (** Non-vacuity of the above: two links leaving the same port *)
 Example c10_example_exclusive :
   let r := PathRoot 0 in let x := AlongPath 0 (POut 0) 1 in let y := AlongPath 0 (PIn 0) 1 in
@@ -219,3 +246,5 @@ Print Assumptions c10_det_faithful_of_exclusive.
 Print Assumptions c10_pg_mutex_tree_det_faithful.
 Print Assumptions c10_with_powerset_det_faithful.
 Print Assumptions c10_pg_ne_tree_det_faithful.
+Print Assumptions c10_string_tree_det_faithful.
+Print Assumptions c10_matrix_tree_det_faithful.
